@@ -142,6 +142,9 @@ def plans(tier, seed):
         P.append((('vacuum', (1, 'mid'), N, p, seed), red, 2))
         P.append((('tensor', (1, 'always'), N, p, seed), small, 3))
         P.append((('components', (2, 'mid'), N, p, seed), small, 3))
+        P.append((('tensor_other', dflt, N, p, seed),
+                  red + ['uup4', 'eweyl_u_down4', 'bweyl_u_down4',
+                         'h:null_vector_base'], 2))
     else:
         for incfg in ('tensor', 'components', 'fluid', 'rho', 'partial',
                       'vacuum'):
